@@ -54,6 +54,9 @@ def plan(tier, seed):
     for n, K in ((4, 7), (4, 8), (5, 8), (5, 9), (6, 9), (2, 6)):
         if not any(c['n'] == n and c['K'] == K for c in cases):
             cases += [{'n': n, 'K': K, 'lay': 'vec', 'method': m, 'fft': None, 'dt': 'f32'} for m in METHODS]
+    for c in cases:   # one length per (K, layout, method, FFT size): the operator is also built inside a jitted function
+        if c['n'] == min(c['K'] + 2, N):
+            c['jit'] = True
     rej = [{'reject': 'method', 'method': m} for m in ('overlap_add', 'toeplitz', '', 'DENSE')]
     for K in range(1, Kmax + 1):
         for lay in ('vec', 'x2b2', 'x32b31'):
@@ -189,6 +192,23 @@ def run(phase, cases, ctx):
                         break
                 if bad:
                     continue
+            # the operator BUILT inside a jitted function from traced band values, and the same input array applied twice
+            if case['method'] != 'dense' or n <= 6:
+                xs1 = tuple(xb) + (n,)
+                xv = (np.arange(int(np.prod(xs1))) % 5 - 2.0).reshape(xs1)
+                xj = jnp.asarray(xv, D)
+                y_a = np.asarray(P.lib('mv', op1.mv, xj))
+                y_b = np.asarray(P.lib('second mv on the same input array', op1.mv, xj))
+                y_j = y_a if not case.get('jit') else np.asarray(P.lib('operator built under jax.jit from traced band values',
+                                       jax.jit(lambda b_, x_: T(b_, jax.ShapeDtypeStruct(xs1, D), **kw).mv(x_)), jnp.asarray(bands, D), xj))
+                want_rows = [r @ v for r, v in zip(refs * (int(np.prod(xs1[:-1])) // len(refs) if len(refs) < int(np.prod(xs1[:-1]) or 1) else 1), xv.reshape(-1, n))]
+                want_y = np.array(want_rows).reshape(xs1)
+                for label, y in (('first application', y_a), ('second application to the same array', y_b), ('built under jit', y_j)):
+                    if y.shape != want_y.shape or not P.close(y, want_y, tol):
+                        violations.append({'kind': 'wrong-product', 'case': case, 'detail': f'{label}: {y.ravel()[:6]} but reference {want_y.ravel()[:6]}'})
+                        break
+                if not np.array_equal(np.asarray(xj), xv.astype(np.asarray(xj).dtype)):
+                    violations.append({'kind': 'input-modified', 'case': case, 'detail': 'the input array differs after mv'})
             A = np.asarray(P.lib('as_matrix', op1.as_matrix), float)
             want = scipy.linalg.block_diag(*refs) if bb or xb else refs[0]
             if not bb and xb:
